@@ -29,7 +29,7 @@ for i in ids:
     })
 m = {
     "version": 1,
-    "setup_cmd": "cd /verif/harness && GOFLAGS=-mod=mod GOPROXY=off GOSUMDB=off GOTOOLCHAIN=local go build -tags verif -o /verif/work/vcheck.setup ./cmd/vcheck && rm -f /verif/work/vcheck.setup",
+    "setup_cmd": "mkdir -p /verif/work && cd /verif/harness && GOFLAGS=-mod=mod GOPROXY=off GOSUMDB=off GOTOOLCHAIN=local go build -tags verif -o /verif/work/vcheck.setup ./cmd/vcheck && go build -race -tags verif -o /verif/work/vcheck.setup.race ./cmd/vcheck && rm -f /verif/work/vcheck.setup /verif/work/vcheck.setup.race",
     "hooks": {
         "guard": "verif",
         "enable": "go build -tags verif (no guarded source exists in /repo; the tag is passed for uniformity)",
